@@ -56,18 +56,18 @@ func mkCase(part string, input []byte, gen string, c cfg) Case {
 
 // Job is a unit of work.
 type Job struct {
-	ID       int    `json:"id"`
-	Part     string `json:"part"`            // tok | bytes | edit | limits | selfcheck
-	Alpha    string `json:"alpha,omitempty"` // full | sub | b256 | b16
-	K        int    `json:"k,omitempty"`     // sequence length
-	Lo       int64  `json:"lo"`
-	Hi       int64  `json:"hi"`
-	Cfg      string `json:"cfg"` // full | two
-	CfgOnly  int    `json:"cfg_only,omitempty"` // 0 = every configuration of the set; n = only the n-th (1-based)
-	Thorough bool   `json:"thorough"`
-	Slow     bool   `json:"slow,omitempty"` // announce every invocation before it starts
-	One      *Case  `json:"one,omitempty"`  // run exactly this invocation
-	Attempt  int    `json:"attempt,omitempty"`
+	ID       int      `json:"id"`
+	Part     string   `json:"part"`            // tok | bytes | edit | limits | selfcheck
+	Alpha    string   `json:"alpha,omitempty"` // full | sub | b256 | b16
+	K        int      `json:"k,omitempty"`     // sequence length
+	Lo       int64    `json:"lo"`
+	Hi       int64    `json:"hi"`
+	Cfg      string   `json:"cfg"`                // full | two
+	CfgOnly  int      `json:"cfg_only,omitempty"` // 0 = every configuration of the set; n = only the n-th (1-based)
+	Thorough bool     `json:"thorough"`
+	Slow     bool     `json:"slow,omitempty"` // announce every invocation before it starts
+	One      *Case    `json:"one,omitempty"`  // run exactly this invocation
+	Attempt  int      `json:"attempt,omitempty"`
 	Inputs   [][]byte `json:"inputs,omitempty"` // edit family: the inputs of indices Lo..Hi-1 (base64 in JSON)
 }
 
@@ -189,7 +189,6 @@ var (
 	curCfg   atomic.Int32
 	curStart atomic.Int64 // unix nanoseconds of the start of the running invocation; 0 = idle
 
-
 	outMu  sync.Mutex
 	outW   *bufio.Writer
 	stallD = func() time.Duration {
@@ -245,6 +244,9 @@ func monitor() {
 	var seenSt, baseCPU int64
 	n := 0
 	for range t.C {
+		if os.Getppid() == 1 {
+			os.Exit(5) // the coordinator is gone
+		}
 		st := curStart.Load()
 		if st == 0 {
 			seenSt = 0
